@@ -65,13 +65,13 @@ def r2_stacking(idx, r):
     okt = len(zt) == 1 and norm(zt[0].value) == "c.ztop"
     if okt:
         conds = [(norm(t), p) for t, p in path_conditions(mod, zt[0].stmt)]
-        okt = ("not isDummyBlock", True) in conds and ("self.expansionData.isTargetComponent(c)", True) in conds and len(conds) == 2
+        okt = ("isDummyBlock", False) in conds and ("self.expansionData.isTargetComponent(c)", True) in conds and len(conds) == 2
     r.require(okt, "block-top-from-target-component-only", f, node=zt[0].stmt if zt else loop, msg="a block's top moves only with its target component, and never for the top dummy block (assembly height fixed)")
     hs = [s for s in iter_stores(mod) if s.chain == f"{b}.p.height"]
     r.require(len(hs) == 2 and all(norm(s.value) == f"{b}.p.ztop - {b}.p.zbottom" for s in hs), "height-is-top-minus-bottom", f, msg="block height is always ztop - zbottom (dummy and non-dummy)")
     for s in hs:
         conds = [(norm(t), p) for t, p in path_conditions(mod, s.stmt)]
-        if ("not isDummyBlock", True) in conds:
+        if ("isDummyBlock", False) in conds:
             r.require(zt and s.stmt.lineno > zt[0].stmt.lineno, "height-after-top", f, node=s.stmt, msg="the height is recomputed after the top moved")
     # component stacking
     cz = {}
